@@ -377,6 +377,9 @@ func genCases(o hx.Opts, r *hx.Rand) []*kase {
 			}
 			src, mode, skip := program(ctx, wrap)
 			c := &kase{ctx: ctx, mode: mode, src: src, skip: skip, form: form, tree: t, class: class}
+			if isPrint {
+				c.printCheck, c.pclass = true, "print-exposed/"+origin+"/"+t.rootName()
+			}
 			if good && form != "none" {
 				c.expect = exp
 			}
@@ -415,6 +418,7 @@ func genCases(o hx.Opts, r *hx.Rand) []*kase {
 		emit(randTree(r, 2+r.Intn(7), 'e'), "random")
 	}
 
+	exposeClass := "" // set by the systematic family below
 	// one print/printf statement in its three writings
 	emitPrint := func(kw string, args []*N, redir string, dest *N, parenList, good bool) {
 		redirName := map[string]string{"": "none", ">": "gt", ">>": "append", "|": "pipe"}[redir]
@@ -465,6 +469,12 @@ func genCases(o hx.Opts, r *hx.Rand) []*kase {
 				}
 			}
 			c := &kase{ctx: kw, mode: mode, src: src, skip: skip, form: "stmt-" + form, class: class}
+			if !parenList {
+				c.printCheck, c.pclass = true, "print-exposed/"+kw+"-statement/"+args[len(args)-1].rootName()
+				if exposeClass != "" {
+					c.pclass = "print-exposed/" + exposeClass
+				}
+			}
 			if ok && form != "none" {
 				c.expect = exp
 			}
@@ -520,6 +530,73 @@ func genCases(o hx.Opts, r *hx.Rand) []*kase {
 		}
 		emitPrint("printf", []*N{{K: "str", S: "%s"}, t}, ">", &N{K: "str", S: "file"}, false, g)
 		emitPrint("print", []*N{{K: "var", S: "z"}, t}, "", nil, true, g)
+	}
+
+	// > and `cmd | getline` at EVERY operand position of every operator, inside print / printf
+	// arguments, written without and with parentheses (always run).  Without parentheses the parser
+	// must not build a comparison / pipe-getline from them (printOracle); with them both writings
+	// must give the tree (oracle); verdict and tree are compared with the model in every case.
+	{
+		v := func(s string) *N { return &N{K: "var", S: s} }
+		xs := func() []*N {
+			return []*N{
+				{K: "binary", Op: "gt", Kids: []*N{v("x"), {K: "num", S: "1"}}},
+				{K: "getline", Kids: []*N{{K: "str", S: "cmd"}, nil, nil}},
+				{K: "getline", Kids: []*N{{K: "str", S: "cmd"}, v("y"), nil}},
+			}
+		}
+		xname := []string{"gt", "cmd|getline", "cmd|getline-var"}
+		str := func(s string) *N { return &N{K: "str", S: s} }
+		for _, a := range ops {
+			for i := range a.slots {
+				for xi := range xs() {
+					x := xs()[xi]
+					if !slotAccepts(a.slots[i], x) {
+						continue
+					}
+					t := mk(r, a, map[int]*N{i: x})
+					g := wf(t)
+					exposeClass = a.name + ":operand" + string(rune('1'+i)) + "/" + xname[xi]
+					emitPrint("print", []*N{t}, "", nil, false, g)
+					emitPrint("print", []*N{{K: "num", S: "1"}, t}, "", nil, false, g)
+					emitPrint("print", []*N{t, v("z")}, ">", str("file"), false, g)
+					emitPrint("print", []*N{t}, "|", str("cat"), false, g)
+					emitPrint("printf", []*N{str("%s"), t}, "", nil, false, g)
+				}
+			}
+		}
+		// one level deeper, over the operators of the print-argument grammar
+		tower := map[string]bool{"cond": true, "binary:or": true, "binary:and": true, "in": true, "binary:match": true,
+			"binary:lt": true, "binary:concat": true, "binary:add": true, "binary:mul": true, "binary:pow": true,
+			"unary:not": true, "unary:sub": true, "field": true, "assign": true}
+		var sub []opSpec
+		for _, o := range ops {
+			if tower[o.name] {
+				sub = append(sub, o)
+			}
+		}
+		for _, a := range sub {
+			for i := range a.slots {
+				for _, b := range sub {
+					for j := range b.slots {
+						for xi := range xs() {
+							x := xs()[xi]
+							if !slotAccepts(b.slots[j], x) {
+								continue
+							}
+							inner := mk(r, b, map[int]*N{j: x})
+							if !slotAccepts(a.slots[i], inner) {
+								continue
+							}
+							t := mk(r, a, map[int]*N{i: inner})
+							exposeClass = a.name + ":operand" + string(rune('1'+i)) + "/" + b.name + ":operand" + string(rune('1'+j)) + "/" + xname[xi]
+							emitPrint("print", []*N{t}, "", nil, false, wf(t))
+						}
+					}
+				}
+			}
+		}
+		exposeClass = ""
 	}
 
 	// token soups and mutated writings (correspondence only)
